@@ -17,6 +17,7 @@ func init() {
 	vRegister("vC31_turns", vC31_turns)
 	vRegister("vC31_deactivate", vC31_deactivate)
 	vRegister("vC31_activation", vC31_activation)
+	vRegister("vC31_resend", vC31_resend)
 }
 
 // ---- ghost grain: records the callbacks of one activation
@@ -124,7 +125,8 @@ type vC31Grain struct{ idx int }
 
 var (
 	vC31_actBeg, vC31_actEnd [vC31nInst]int // OnActivate begun / completed, per instance
-	vC31_deaEnd              [vC31nInst]int // OnDeactivate completed, per instance
+	vC31_deaBeg, vC31_deaEnd [vC31nInst]int // OnDeactivate begun / completed, per instance
+	vC31_inDea               int            // OnDeactivate in progress, over all instances of the identity
 	vC31_inAct               [vC31nInst]int // OnActivate in progress
 	vC31_recv                [vC31nInst]int // OnReceive calls, per instance
 	vC31_msgHandled          [4]int         // OnReceive calls, per message
@@ -152,8 +154,9 @@ func (g *vC31Grain) OnActivate(ctx context.Context, props *GrainProps) error {
 }
 
 func (g *vC31Grain) OnReceive(gc *GrainContext) {
-	vAssert(vC31_inAct[g.idx] == 0 && vC31_actEnd[g.idx] > vC31_deaEnd[g.idx], "OnActivate of an activation completes before its first OnReceive")
+	vAssert(vC31_inAct[g.idx] == 0 && vC31_actBeg[g.idx] >= 1 && vC31_actEnd[g.idx] == vC31_actBeg[g.idx], "OnActivate of an activation completes before its first OnReceive")
 	vAssert(vC31_inRecvID == 0, "OnReceive of one grain identity never runs concurrently with itself (also not on two instances)")
+	vAssert(vC31_inDea == 0, "OnReceive never runs concurrently with OnDeactivate")
 	vC31_inRecvID++
 	vC31_recv[g.idx]++
 	id := gc.message.(int)
@@ -162,7 +165,15 @@ func (g *vC31Grain) OnReceive(gc *GrainContext) {
 	vC31_inRecvID--
 }
 
+// (an OnReceive after the OnDeactivate of the same activation - a message queued behind the PoisonPill - is finding C31-1 of
+// vC31_deactivate and is not asserted again here)
 func (g *vC31Grain) OnDeactivate(ctx context.Context, props *GrainProps) error {
+	vAssert(vC31_inRecvID == 0, "OnDeactivate never runs concurrently with OnReceive")
+	vAssert(vC31_actEnd[g.idx] > vC31_deaBeg[g.idx], "OnDeactivate runs at most once per activation, after its OnActivate")
+	vC31_deaBeg[g.idx]++
+	vC31_inDea++
+	vYield()
+	vC31_inDea--
 	vC31_deaEnd[g.idx]++
 	return nil
 }
@@ -227,8 +238,9 @@ func vC31_system() *actorSystem {
 	sys.registry = vC31Registry{}
 	sys.reflection = newReflection(vC31Registry{})
 	for i := 0; i < vC31nInst; i++ {
-		vC31_actBeg[i], vC31_actEnd[i], vC31_deaEnd[i], vC31_inAct[i], vC31_recv[i] = 0, 0, 0, 0, 0
+		vC31_actBeg[i], vC31_actEnd[i], vC31_deaBeg[i], vC31_deaEnd[i], vC31_inAct[i], vC31_recv[i] = 0, 0, 0, 0, 0, 0
 	}
+	vC31_inDea = 0
 	vC31_msgHandled = [4]int{}
 	vC31_inRecvID, vC31_made = 0, 0
 	vC31_readyQ = make(chan *grainPID, 4)
@@ -292,6 +304,50 @@ func vC31_activation() {
 	}
 	for m := 1; m <= 2; m++ {
 		vAssert(vC31_msgHandled[m] <= 1, "a message sent to a grain is handed to OnReceive at most once")
+	}
+	vCover("end")
+}
+
+// The identity's grain is active. One caller deactivates it explicitly (TellGrain of a PoisonPill, real handlePoisonPill and
+// deactivate), another sends a message; one worker runs the turns. A message whose send starts after OnDeactivate completed
+// must activate a fresh instance that receives it; the new activation never overlaps the old one.
+func vC31_resend() {
+	sys := vC31_system()
+	id := &GrainIdentity{kind: "k", name: "g0", cachedStr: "k/g0"}
+	old := newGrainPID(id, &vC31Grain{idx: 2}, sys, newGrainConfig())
+	vAssert(old.activate(context.Background()) == nil, "harness: the first activation succeeds")
+	sys.grains.Set(id.String(), old)
+	var perr, terr error
+	sentAfter := false
+	vGo("deactivator", func() { perr = sys.TellGrain(context.Background(), id, new(PoisonPill)) })
+	vGo("sender", func() {
+		sentAfter = vC31_deaEnd[2] == 1
+		terr = sys.TellGrain(context.Background(), id, 1)
+	})
+	vGo("w", func() { vC31_workerQ(sys.dispatcher, 2) })
+	vRun()
+
+	vAssert(vC31_live() <= 1, "at most one activation of a grain identity is live")
+	vAssert(vC31_made <= 1, "at most one fresh grain instance is created for one re-activation")
+	vAssert(vC31_msgHandled[1] <= 1, "a message sent to a grain is handed to OnReceive at most once")
+	if vThreadDone(0) && vThreadDone(1) && vStuck() && len(vC31_readyQ) == 0 {
+		vAssert(perr == nil && terr == nil, "the sends are accepted")
+		vAssert(vC31_deaBeg[2] == 1 && vC31_deaEnd[2] == 1, "an explicit deactivation runs OnDeactivate of the activation exactly once")
+		vAssert(!old.isActive(), "the deactivated process is inactive")
+		p, ok := sys.grains.Get(id.String())
+		vAssert(!ok || p != old, "the deactivated process is no longer the identity's registered process")
+		if sentAfter {
+			vAssert(vC31_actEnd[1] == 1 && vC31_recv[1] == 1 && vC31_msgHandled[1] == 1, "a message sent after the deactivation activates a fresh instance that receives it")
+			vCover("sent-after-deactivation")
+		}
+		if vC31_actBeg[1] == 1 {
+			vAssert(ok && p.isActive() && p.grain.(*vC31Grain).idx == 1 && vC31_live() == 1, "the fresh activation is the identity's registered, active process")
+			vCover("fresh-instance")
+		} else {
+			vAssert(!ok && vC31_live() == 0, "without a fresh activation nothing is registered or live for the identity")
+			vCover("handled-by-old-or-dropped")
+		}
+		vCover("quiescent")
 	}
 	vCover("end")
 }
